@@ -224,7 +224,7 @@ PROPERTIES = {
     },
     'C12': {
         'main_scenarios': ['cadence'],
-        'units': [mainloop.MainLoop, mainspec.MainWiring, mainspec.MapDispatch, io.ProgramOptionsGetters, ps.Integrate, ps.Variance, ps.UpdateYProjection, ps.UpdateXProjection, ef.UpdateCSR, sm.KickMapApply, sm.FokkerPlanckApply, sm.IdentityApply, dynrf.DynApply, dynrf.DynCalcKick],
+        'units': [mainloop.MainLoop, mainspec.MainWiring, mainspec.MapDispatch, io.ProgramOptionsGetters, ps.Integrate, ps.Variance, ps.UpdateYProjection, ps.UpdateXProjection, ef.UpdateCSR, sm.KickMapApply, sm.FokkerPlanckApply, sm.IdentityApply, dynrf.DynApply, dynrf.DynCalcKick, dynrf.DynRFLinearCtor, dynrf.DynRFSinCtor],
         'lemmas': [],
         'level': 'other',
         'claim': 'one loop iteration maps the physics state (three grids, x-projection, wake offsets, tracked particles) to the same value whether or not the output block runs: proved on main by a relational invariant over event contracts; '
